@@ -1271,7 +1271,10 @@ func (d *descendantOverDescendantQuery) Select(t iterator) NodeNavigator {
 				d.posit = 1
 				return d.currentNode
 			}
-			d.moveToFirstChild()
+			if !d.moveToFirstChild() {
+				// a node without children has no descendants.
+				continue
+			}
 		} else if !d.moveUpUntilNext() {
 			continue
 		}
